@@ -14,7 +14,7 @@ OnlyAsIs == {NoFixes}
 Both == {NoFixes, AllFixes}
 Without(f) == {AllFixes \ {f}}
 
-Class(name, kinds, k, ord) == [name |-> name, kinds |-> kinds, k |-> k, ord |-> ord]
+Class(name, kinds, k, ord) == [name |-> name, kinds |-> kinds, k |-> k, ord |-> ord, script |-> <<>>]
 \* exhaustive checking
 All(k, ord) == {Class("all", AllKinds, k, ord)}
 \* directed classes: every behaviour of a small class of deviations, one class
@@ -28,6 +28,49 @@ D7 == Class("partial-points", {"pts.partial", "acc.member"}, 2, "rev1")
 Directed3 == {Single3, D6}
 Directed5 == {D3b, D4, D5, D7}
 C02AsIs == {D3b}
+
+\* directed counterexamples: the adversaries TLC found against the pinned design
+\* (Classes without repairs), reduced to their essential deviations.  Everything
+\* not scripted is the default (honest looking) message.
+Scripted(name, ord, script) == [name |-> name, kinds |-> {}, k |-> 0, ord |-> ord, script |-> script]
+M(c, k, p) == [from |-> c, claim |-> c, k |-> k, p |-> p, sess |-> TRUE]
+Sh(c, dev) == M(c, "shares", [j \in Members |-> IF j = c THEN "absent" ELSE IF j \in DOMAIN dev THEN dev[j] ELSE "ok"])
+Cm(c) == M(c, "commits", <<"ok">>)
+Pts(c, S) == M(c, "pts", [cnt |-> "ok", okFor |-> S])
+E(i) == [id |-> i, ok |-> TRUE]
+At1(st, c, msgs) == <<st, c>> :> msgs
+\* n = 3, corrupt = {3}
+S3 == {
+  Scripted("s-partial-points-1", "asc", At1("A7", 3, <<Pts(3, {1})>>)),
+  Scripted("s-partial-points-2", "asc", At1("A7", 3, <<Pts(3, {2})>>)),
+  Scripted("s-self-accusation-4", "asc", At1("A4", 3, <<M(3, "acc4", {E(3)})>>)),
+  Scripted("s-self-accusation-8", "asc", At1("A8", 3, <<M(3, "acc8", {E(3)})>>)),
+  Scripted("s-reveal-nonexistent", "asc", At1("A10", 3, <<M(3, "rev", {E(4)})>>)),
+  Scripted("s-reveal-zero", "asc", At1("A10", 3, <<M(3, "rev", {E(0)})>>)),
+  Scripted("s-reveal-self", "asc", At1("A10", 3, <<M(3, "rev", {E(3)})>>)),
+  Scripted("s-second-reveal", "asc", At1("A10", 3, <<M(3, "rev", {}), M(3, "rev", {E(1)})>>)) }
+\* n = 5, corrupt = {4, 5}
+S5 == {
+  \* 5 is silent in state 8 (inactive in 9, valid points held); 4 reveals the key for 5
+  Scripted("s-unexpected-reveal-inactive", "asc", At1("A8", 5, <<>>) @@ At1("A10", 4, <<M(4, "rev", {E(5)})>>)),
+  \* 5 is disqualified in state 5 (bad share to 1); 4 reveals the key for 5
+  Scripted("s-unexpected-reveal-nonqual", "asc", At1("A3", 5, <<Sh(5, 1 :> "bad"), Cm(5)>>) @@ At1("A10", 4, <<M(4, "rev", {E(5)})>>)),
+  \* 4 reveals the key of honest 2, 5 reveals the key of 4: order dependent
+  Scripted("s-reveal-order", "rev1", At1("A10", 4, <<M(4, "rev", {E(2)})>>) @@ At1("A10", 5, <<M(5, "rev", {E(4)})>>)),
+  \* 4 and 5 omit the share for each other: who is disqualified depends on the order
+  Scripted("s-shares-absent-order", "rev1", At1("A3", 4, <<Sh(4, 5 :> "absent"), Cm(4)>>) @@ At1("A3", 5, <<Sh(5, 4 :> "absent"), Cm(5)>>)),
+  \* 4 cheats 1 only, 5 omits the share for 4: 1 judges 5 differently
+  Scripted("s-shares-absent-view", "asc", At1("A3", 4, <<Sh(4, 1 :> "bad"), Cm(4)>>) @@ At1("A3", 5, <<Sh(5, 4 :> "absent"), Cm(5)>>)),
+  \* 4 cheats 1 (1 disqualifies 4 in state 4), 5 cheats 4, 4 rightly accuses 5: 1 drops the accusation
+  Scripted("s-accuser-dropped-4", "asc", At1("A3", 4, <<Sh(4, 1 :> "bad"), Cm(4)>>) @@ At1("A3", 5, <<Sh(5, 4 :> "bad"), Cm(5)>>)
+                                          @@ At1("A4", 4, <<M(4, "acc4", {E(5)})>>)),
+  \* the same in state 8: points of 4 invalid for 1 only, 5 gave 4 a bad share, 4 accuses 5 in state 8
+  Scripted("s-accuser-dropped-8", "asc", At1("A3", 5, <<Sh(5, 4 :> "bad"), Cm(5)>>) @@ At1("A7", 4, <<Pts(4, {2, 3})>>)
+                                          @@ At1("A8", 4, <<M(4, "acc8", {E(5)})>>)),
+  \* points of 5 valid for 1 and 4 only; 4 accuses 5 (falsely: its share fits)
+  Scripted("s-partial-points-false-accuser", "asc", At1("A7", 5, <<Pts(5, {1, 4})>>) @@ At1("A8", 4, <<M(4, "acc8", {E(5)})>>)),
+  Scripted("s-partial-points-5", "asc", At1("A7", 5, <<Pts(5, {1, 2})>>)) }
+
 
 \* corrupt sets
 Corrupt3 == {{3}}
